@@ -4,7 +4,7 @@ From TauProofs Require C02_entry C02_lift C02_cond.
 
 Definition entry_refines : entry_refines_excl_stmt := C02_entry.entry_refines_excl.
 
-Definition entry_refines_false : ~ entry_refines_stmt := C02_entry.entry_refines_false.
+Definition entry_fixed_D30 := C02_entry.entry_fixed_D30.
 
 Definition mapping_refines_simple :=
   C02_lift.mapping_refines_simple C02_entry.entry_refines_excl.
